@@ -14,7 +14,9 @@ from props.engine_common import plain
 
 VAL = {
     'm1': 'contains("ALFA")', 'm2': 'amount > 5', 'm3': 'regex("x") and month == 12',
-    'c1': 'Food', 'c2': 'Bills & Utilities', 's1': 'Grocery', 's2': 'Power', 't1': 'one, two', 't2': 'three',
+    'c1': 'Food', 'c2': 'Bills & Utilities', 's1': 'Grocery', 's2': 'Power', 't1': 'one, two',
+    # a tags line is split at commas OUTSIDE parentheses, at any nesting depth
+    't2': 'three, {regex_replace(field.memo, "^REF ", lowercase(field.branch))}, {split(field.name, " ", 0)}',
     'p1': '60', 'p2': '40', 'l1': 'a = amount * 2', 'l2': 'b = a + 1', 'l3': 'c = 1', 'f1': 'note = "x"', 'f2': 'memo = description',
     'n1': 'Display Name', 'd1': 'All the big ones', 'd2': 'Another description',
 }
@@ -114,6 +116,22 @@ def observe(text, kind):
     return {'err': False, 'rules': rules, 'globals': list(cfg.global_variables), 'transforms': 0}
 
 
+def split_tags(val):
+    out, cur, depth = [], [], 0
+    for ch in val:
+        if ch == '(':
+            depth += 1
+        elif ch == ')':
+            depth -= 1
+        if ch == ',' and depth == 0:
+            out.append(''.join(cur).strip())
+            cur = []
+        else:
+            cur.append(ch)
+    out.append(''.join(cur).strip())
+    return [x for x in out if x]
+
+
 def expected(res, kind):
     if res['err']:
         return {'err': True, 'lines': sorted(res['lines'])}
@@ -123,7 +141,7 @@ def expected(res, kind):
         for key, vid in r['props']:
             val = (VIEW_VAL if (kind == 'views' and key == 'filter') else VAL)[vid]
             if key == 'tags':
-                val = ', '.join(sorted(x.strip() for x in val.split(',')))
+                val = ', '.join(sorted(split_tags(val)))
             props.add((key, val))
         rules.append({'name': 'Rule ' + r['name'], 'props': sorted(props), 'lets': [VAL[p[1]] for p in r['lets']], 'vars': list(r['vars'])})
     return {'err': False, 'rules': rules, 'globals': list(res['globals']), 'transforms': res['transforms']}
